@@ -129,3 +129,20 @@ let sx_of_seq (s : seq) : sx =
   L [A "S"; L (List.map sx_of_feature s.feats); sx_of_bytes s.residues]
 let sx_of_den (d : (z * bool) list) : sx =
   L (List.map (fun (p, c) -> A ((string_of_int (int_of_z p)) ^ (if c then "-" else "+"))) d)
+
+let modifier_of_sx (x : sx) : modifier =
+  match x with
+  | L [A "H"; p] -> MHead (z_of_sx p)
+  | L [A "T"; p] -> MTail (z_of_sx p)
+  | L [A "HT"; p; q] -> MHeadTail (z_of_sx p, z_of_sx q)
+  | L [A "HH"; p; q] -> MHeadHead (z_of_sx p, z_of_sx q)
+  | L [A "TT"; p; q] -> MTailTail (z_of_sx p, z_of_sx q)
+  | _ -> failwith "modifier expected"
+let sx_of_modifier (m : modifier) : sx =
+  match m with
+  | MHead p -> L [A "H"; sx_of_z p]
+  | MTail p -> L [A "T"; sx_of_z p]
+  | MHeadTail (p, q) -> L [A "HT"; sx_of_z p; sx_of_z q]
+  | MHeadHead (p, q) -> L [A "HH"; sx_of_z p; sx_of_z q]
+  | MTailTail (p, q) -> L [A "TT"; sx_of_z p; sx_of_z q]
+let sx_of_segs (l : (z * z) list) : sx = L (List.map (fun (a, b) -> L [A "G"; sx_of_z a; sx_of_z b]) l)
